@@ -88,6 +88,40 @@ theorem Reader.new_ok (inputs : List (List Row)) (refills : List (List Nat)) :
     obtain ⟨i, _, rfl⟩ := hb
     rfl
 
+theorem tagInputs_get {keys : List (List Int)} {i : Nat} {l : List Row} (h : (tagInputs keys)[i]? = some l) :
+    ∃ ks, keys[i]? = some ks ∧ l = tagList i ks := by
+  simp only [tagInputs, List.getElem?_map, Option.map_eq_some_iff] at h
+  obtain ⟨j, hj, rfl⟩ := h
+  have hlt := lt_of_getElem?_some hj
+  simp only [List.length_range] at hlt
+  have : j = i := by
+    have : i = j := by simpa [List.getElem?_range hlt] using hj
+    exact this.symm
+  subst this
+  exact ⟨keys[j], List.getElem?_eq_getElem hlt, by simp [List.getD_eq_getElem?_getD, List.getElem?_eq_getElem hlt]⟩
+
+theorem tagInputs_wellTagged (keys : List (List Int)) : WellTagged (tagInputs keys) := by
+  intro i l hl x hx
+  obtain ⟨ks, _, rfl⟩ := tagInputs_get hl
+  simp only [tagList, List.mem_map] at hx
+  obtain ⟨j, _, rfl⟩ := hx
+  rfl
+
+theorem tagList_sorted (i : Nat) (ks : List Int) (h : ks.Pairwise (· ≤ ·)) : SortedK (tagList i ks) := by
+  rw [SortedK, List.pairwise_iff_getElem]
+  intro a b ha hb hab
+  simp only [tagList, List.length_map, List.length_range] at ha hb
+  simp only [tagList, List.getElem_map, List.getElem_range, List.getD_eq_getElem?_getD,
+    List.getElem?_eq_getElem ha, List.getElem?_eq_getElem hb, Option.getD_some]
+  exact List.pairwise_iff_getElem.mp h a b ha hb hab
+
+theorem tagInputs_sorted (keys : List (List Int)) (h : ∀ ks ∈ keys, ks.Pairwise (· ≤ ·)) :
+    ∀ l ∈ tagInputs keys, SortedK l := by
+  intro l hl
+  obtain ⟨i, hi⟩ := List.getElem?_of_mem hl
+  obtain ⟨ks, hks, rfl⟩ := tagInputs_get hi
+  exact tagList_sorted i ks (h ks (List.mem_of_getElem? hks))
+
 /-! ## dedupe -/
 
 theorem dedupeBatch_append : ∀ (a b : List Row) (last : Option Row),
